@@ -67,10 +67,14 @@ def run_one(m, keep=False):
         keys = json.load(open(keys_out))
         fresh = sorted({k for v in keys.values() for k in v["fresh"]})
         if m["kind"] == "positive":
+            for pr in m.get("expect_props", []):
+                if not keys.get(pr, {}).get("fresh"):
+                    return m, "MISSED", "no fresh violation under property %s; fresh violations: %s" % (pr, fresh), time.time() - t0
             missing = [e for e in m["expect"] if not any(e in k for k in fresh)]
             if missing:
                 return m, "MISSED", "expected keys containing %s; fresh violations: %s" % (missing, fresh), time.time() - t0
-            return m, "ok", "caught: %s" % [k for k in fresh if any(e in k for e in m["expect"])], time.time() - t0
+            shown = [k for k in fresh if any(e in k for e in m["expect"])] or fresh[:4]
+            return m, "ok", "caught: %s" % shown, time.time() - t0
         else:
             if fresh:
                 return m, "FALSE-ALARM", "fresh violations on a behaviour-preserving edit: %s" % fresh, time.time() - t0
